@@ -64,6 +64,9 @@ _cache = {}
 
 def module_path(name):
     rel = name.replace(".", "/")
+    if name.startswith("specs."):
+        cand = os.path.join(os.path.dirname(os.path.dirname(os.path.abspath(__file__))), rel + ".py")
+        return cand if os.path.exists(cand) else None
     for cand in (os.path.join(REPO, rel + ".py"), os.path.join(REPO, rel, "__init__.py")):
         if os.path.exists(cand):
             return cand
